@@ -143,11 +143,100 @@ def run(facts, rep, ctx):
             rep.violation(R3, b.name, "threshold", "references are emitted for lengths below 3 (threshold %s): the 2-byte form's high nibble would collide with the form indicators 0/1" % sorted(thr), where)
     sub_guards(facts, rep, R4, b)
     no_failure_on_matches(rep, R5, enc, L, W, where)
+    prepass_rule(facts, rep, R5)
     R6 = rep.rule("R09.6", "back-references reach only into data already produced: search contract shared with C10-R10.3", floor=5)
     import c10
     sb = facts.body(enc.search["callee"])
     if sb is not None:
         c10.search_contract(facts, rep, R6, sb)
+
+
+def prepass_rule(facts, rep, R5):
+    """The size pre-pass (`calculate_lz13_header`) fails with an error when the step length is 2 (neither a literal
+    nor a usable reference).  compress must succeed on every input, so that value must be unreachable: every
+    assignment to the step length is the initial literal 1 or sits under the `>= 3` test of the value assigned."""
+    from flow import dom_guards
+    from c04 import is_err_term
+    b = facts.body("mila::lz13::calculate_lz13_header")
+    if b is None:
+        return
+    where = "%s:%s" % (b.file, b.line)
+    # the local the error return depends on: compared with a small constant on the way to the Err aggregate
+    err_blocks = [bi for bi, si, st in b.stmts() if st["k"] == "assign" and st["lhs"]["l"] == 0 and not st["lhs"]["p"] and st["rv"]["k"] == "agg" and st["rv"].get("variant") == "Err"]
+    lens = set()
+    for eb in err_blocks:
+        for (a, s_, c) in dom_guards(b, eb):
+            ct = cond_truth(c)
+            if ct and ct[0][0] == "bin" and ct[0][1] in ("Le", "Lt", "Eq") and ct[0][3][0] == "const" and isinstance(ct[0][3][1], int) and ct[0][3][1] <= 3:
+                for x in walk(ct[0][2]):
+                    if x[0] == "var":
+                        lens.add(x[1])
+    if len(lens) != 1:
+        if err_blocks:
+            rep.inconc(R5, "calculate_lz13_header: the value its error return tests was not identified")
+        return
+    ll = list(lens)[0]
+    bad = None
+    n = 0
+
+    def named_root(l):
+        """the named local a temporary is a copy of (raw MIR: terms of locals that are updated through `+=` on a
+        wrapper type are not reliable)"""
+        for _ in range(6):
+            if b.local_name(l):
+                return l
+            ds = b.defs().get(l, [])
+            if len(ds) != 1 or ds[0][2] != "assign" or ds[0][3]["rv"]["k"] not in ("use", "cast"):
+                return l
+            pl = ds[0][3]["rv"]["a"].get("m") or ds[0][3]["rv"]["a"].get("c")
+            if pl is None:
+                return l
+            l = pl["l"]
+        return l
+
+    def guard_roots(bi):
+        """named locals tested `>= 3` (or `> 2`) on the way to block bi"""
+        out = set()
+        for (a, s_, c) in dom_guards(b, bi):
+            tt = b.blocks[a]["term"]
+            if tt["k"] != "switch":
+                continue
+            dl = tt["d"].get("m") or tt["d"].get("c")
+            for st in b.blocks[a]["stmts"]:
+                if st["k"] == "assign" and dl is not None and st["lhs"]["l"] == dl["l"] and st["rv"]["k"] == "bin" and st["rv"]["op"] in ("Ge", "Gt", "Lt", "Le"):
+                    k = st["rv"]["b"].get("k")
+                    apl = st["rv"]["a"].get("m") or st["rv"]["a"].get("c")
+                    if not k or k.get("val", {}).get("kind") != "int" or apl is None:
+                        continue
+                    kv = k["val"]["v"]
+                    # which way does the edge a -> s_ go?
+                    truth = None
+                    for v_, tb in tt["targets"]:
+                        if tb == s_:
+                            truth = bool(v_)
+                    if truth is None and tt["otherwise"] == s_:
+                        truth = True
+                    op = st["rv"]["op"] if truth else {"Lt": "Ge", "Le": "Gt", "Gt": "Le", "Ge": "Lt"}[st["rv"]["op"]]
+                    if (op == "Ge" and kv >= 3) or (op == "Gt" and kv >= 2):
+                        out.add(named_root(apl["l"]))
+        return out
+    for (bi, si, kind, payload) in b.defs().get(ll, []):
+        if kind != "assign":
+            bad = bad or "is set by a call result"
+            continue
+        rv = payload["rv"]
+        if rv["k"] == "agg" and len(rv["fields"]) == 1 and rv["fields"][0].get("k", {}).get("val", {}).get("v") == 1:
+            n += 1
+            continue
+        src = rv["a"].get("m") or rv["a"].get("c") if rv["k"] in ("use", "cast") else None
+        if src is not None and named_root(src["l"]) in guard_roots(bi):
+            n += 1
+        else:
+            bad = bad or "can be assigned at line %s from a value that did not pass the `>= 3` test" % payload.get("line")
+    if bad:
+        rep.violation(R5, b.name, "prepass-length", "the step length of the size pre-pass %s: a value of 2 reaches its `length <= 2` error return, and compress fails on a valid input" % bad, where)
+    elif n:
+        rep.ok(R5, {"fn": b.name, "step_length": "1, or a value that passed >= 3 (%d assignments)" % n})
 
 
 def no_failure_on_matches(rep, R5, enc, L, W, where):
